@@ -35,7 +35,7 @@ RULE = (
     "of the clean output, and a clean call on the same closure follows. (3) Schedules: 2-3 threads with drawn "
     "create/use programs start from cold caches under a deterministic line-granularity scheduler (sys.settrace in "
     "src/kio, token passing); the interleaving is a drawn list of <=3 preemptions (global step, target thread); "
-    "additionally ONE preemption is swept over EVERY step of fixed two/three-thread programs (warm and cold caches, two different values of one class) exhaustively, and EVERY PAIR of preemptions (park thread 0 at k1, park thread 1 at k2, resume 0, then 1) is swept over a warm two-thread program whose values hold multi-item arrays. Additionally one preemption is swept over every step of thread 0 working on class X while thread 1 works on a DIFFERENT class Y (warm encode and decode), for consecutive pairs of a greedy cover of small classes that together contain every field kind (plain, array, tagged), a nullable struct and nested struct arrays. (4) Orders: in 4 (quick) / 14 (thorough) fresh processes the readers and writers of ALL 1629 classes are created and used in a different order (forward, reverse, seeded shuffles); per class up to 12 fixed calls (decode of a populated, a zero, a conforming explicit-default/explicit-null and up to three null-in-non-nullable encodings; encode of the corresponding instances) must have the same outcome (value or exception type) in every order; a difference is bisected to the earlier class that causes it. (5) Repetition: for 32 classes one cached writer and one cached reader are called 20000 (quick) / 300000 (thorough) times each on a populated value; every result must equal the reference encoding / the value; and for 6 classes 70000 (quick) / 600000 (thorough) DISTINCT values (every string, bytes, uuid and wide integer unique) go through one reader/writer pair, each must re-encode to its reference bytes, and the first 64 are decoded again afterwards. Non-trivial = history with a failed call "
+    "additionally ONE preemption is swept over EVERY step of fixed two/three-thread programs (warm and cold caches, two different values of one class) exhaustively, and EVERY PAIR of preemptions (park thread 0 at k1, park thread 1 at k2, resume 0, then 1) is swept over a warm two-thread program whose values hold multi-item arrays. Additionally one preemption is swept over every step of thread 0 working on class X while thread 1 works on a DIFFERENT class Y (warm encode and decode), for consecutive pairs of a greedy cover of small classes that together contain every field kind (plain, array, tagged), a nullable struct and nested struct arrays. (4) Orders: in 4 (quick) / 14 (thorough) fresh processes the readers and writers of ALL 1629 classes are created and used in a different order (forward, reverse, seeded shuffles); per class up to 12 fixed calls (decode of a populated, a zero, a conforming explicit-default/explicit-null and up to three null-in-non-nullable encodings; encode of the corresponding instances) must have the same outcome (value or exception type) in every order; a difference is bisected to the earlier class that causes it. (5) Repetition: for 32 classes one cached writer and one cached reader are called 10000 (quick) / 300000 (thorough) times each on a populated value; every result must equal the reference encoding / the value; and for 6 classes 70000 (quick) / 600000 (thorough) DISTINCT values (every string, bytes, uuid and wide integer unique) go through one reader/writer pair, each must re-encode to its reference bytes, and the first 64 are decoded again afterwards. Non-trivial = history with a failed call "
     "followed by a successful call on the same closure / fault k strictly inside the call / schedule with >=1 "
     "preemption landing inside entity_reader/entity_writer construction or read_entity/write_entity; distinct by hash."
 )
@@ -164,6 +164,16 @@ class Executor:
         if got != it.pristine:
             raise Violation(f"history:encode-differs-after:{where}",
                             f"{it.cd.path}: encoding gives {got.hex()[:200]}, pristine {it.pristine.hex()[:200]} after {self.log[-3:]}")
+        # the same through a sink that is not an io.BytesIO (a socket-like object offering write() only)
+        sink = RecordingSink()
+        try:
+            self._writer(it)(sink, it.value)
+        except Exception as e:
+            raise Violation(f"history:encode-raised-after:{where}:{K.exc_signature(e)}",
+                            f"{it.cd.path}: encoding a pool value to a write-only sink raised {e!r} after {self.log[-3:]}")
+        if sink.value() != it.pristine:
+            raise Violation(f"history:encode-differs-after:{where}:write-only-sink",
+                            f"{it.cd.path}: a write-only sink received {sink.value().hex()[:200]}, pristine {it.pristine.hex()[:200]} after {self.log[-3:]}")
         try:
             back, used = K.decode(it.cd.cls, it.pristine)
         except Exception as e:
@@ -178,7 +188,17 @@ class Executor:
     # -- operations (all JSON-able)
     def apply(self, op: list):
         self.log.append(op)
-        getattr(self, "op_" + op[0])(*op[1:])
+        try:
+            getattr(self, "op_" + op[0])(*op[1:])
+        except Violation:
+            raise
+        except Exception as e:  # noqa: BLE001
+            # safety net: an exception that escapes an operation's own handling and comes from inside kio is a result
+            # that depends on the history (the same operation is fine in a pristine state); anything else is a harness error
+            sig = K.exc_signature(e)
+            if sig.endswith("@?"):
+                raise
+            raise Violation(f"history:unexpected-exception:{op[0]}:{sig}", f"operation {op} raised {e!r} after {self.log[-4:-1]}")
 
     def op_add(self, path: str, tree_json):
         cd = D.describe(D.resolve(path))
@@ -213,17 +233,29 @@ class Executor:
     def op_decode(self, i: int):
         self.verify(i % len(self.items), "decode")
 
-    def op_nullable(self, i: int):
+    def op_nullable(self, i: int, style: int = 0):
+        """The nullable variants, requested positionally (style 0) or by keyword (style 1): a presence marker before the
+        struct, None <-> 0xff, whatever variants of this or other classes exist already."""
         it = self.items[i % len(self.items)]
+        get_w = (lambda: K.entity_writer(it.cd.cls, True)) if style % 2 == 0 else (lambda: K.entity_writer(it.cd.cls, nullable=True))
+        get_r = (lambda: K.entity_reader(it.cd.cls, True)) if style % 2 == 0 else (lambda: K.entity_reader(it.cd.cls, nullable=True))
         buf = io.BytesIO()
-        K.entity_writer(it.cd.cls, True)(buf, None)
-        K.entity_writer(it.cd.cls, True)(buf, it.value)
+        try:
+            get_w()(buf, None)
+            get_w()(buf, it.value)
+        except Exception as e:
+            raise Violation(f"history:nullable-writer-raised:{K.exc_signature(e)}",
+                            f"{it.cd.path}: the nullable writer (style {style % 2}) raised {e!r} after {self.log[-3:]}")
         want = b"\xff" + b"\x01" + it.pristine
         if buf.getvalue() != want:
             raise Violation("history:nullable-writer-differs", f"{it.cd.path}: {buf.getvalue().hex()[:120]} vs {want.hex()[:120]}")
         src = io.BytesIO(want)
-        a = K.entity_reader(it.cd.cls, True)(src)
-        b = K.entity_reader(it.cd.cls, True)(src)
+        try:
+            a = get_r()(src)
+            b = get_r()(src)
+        except Exception as e:
+            raise Violation(f"history:nullable-reader-raised:{K.exc_signature(e)}",
+                            f"{it.cd.path}: the nullable reader (style {style % 2}) raised {e!r} after {self.log[-3:]}")
         if a is not None or not py_equal(b, it.value):
             raise Violation("history:nullable-reader-differs", f"{it.cd.path}: {a!r:.80} {b!r:.80}")
 
@@ -423,9 +455,9 @@ class HistoryMachine(RuleBasedStateMachine):
     def decode(self, i):
         self._do(["decode", i])
 
-    @rule(i=st.integers(0, 63))
-    def nullable(self, i):
-        self._do(["nullable", i])
+    @rule(i=st.integers(0, 63), style=st.integers(0, 1))
+    def nullable(self, i, style):
+        self._do(["nullable", i, style])
 
     @rule(i=st.integers(0, 63), cut=st.integers(0, 10**6))
     def truncated(self, i, cut):
@@ -941,25 +973,51 @@ def kind_cover_classes() -> list[str]:
     return picked
 
 
+def tag_bearing_messages() -> list[str]:
+    """One top-level message per (api, entity type) - the latest version - among those that contain, at any depth, a
+    class declaring tagged fields; ordered so that ring neighbours belong to different APIs."""
+
+    def has_tags(cd: D.ClassDesc, depth: int = 0) -> bool:
+        return any(f.tag is not None or (f.kind == "struct" and depth < 4 and has_tags(f.struct, depth + 1)) for f in cd.fields)
+
+    best: dict = {}
+    for api, version, etype, modname in D.walk_version_modules():
+        for cls in D.module_classes(modname):
+            if cls.__type__.name != etype or cls.__type__.name == "nested":
+                continue
+            cd = D.describe(cls)
+            if has_tags(cd) and best.get((api, etype), (-1, None))[0] < version:
+                best[(api, etype)] = (version, cd.path)
+    return [p for _k, (_v, p) in sorted(best.items(), key=lambda kv: (kv[0][1], kv[0][0]))]
+
+
 def kind_pair_tasks(ctx: Ctx, shards: int) -> list:
     """One preemption swept over EVERY step of thread 0 encoding (decoding) a value of class X while thread 1 encodes
     (decodes) a value of a DIFFERENT class Y, warm caches, for consecutive pairs (both orders) of the kind-cover list."""
     cover = kind_cover_classes()
     if not ctx.quick:
         cover = cover + cover[::2]  # a second, different pairing
+    tagged = tag_bearing_messages()
+    rings = [(cover, 1), (tagged, 1)] + ([(tagged, 2), (tagged, 3)] if not ctx.quick else [])
+    pairs = []
+    for ring, hop in rings:
+        for i, x in enumerate(ring):
+            y = ring[(i + hop) % len(ring)]
+            if x != y and (x, y) not in pairs:
+                pairs.append((x, y))
     tasks = []
-    for i, x in enumerate(cover):
-        y = cover[(i + 1) % len(cover)]
-        if x == y:
-            continue
+    for x, y in pairs:
         for a, b in ((x, y), (y, x)):
-            trees_json = [(a, tree_to_json(populated_tree(D.describe(D.resolve(a)), 2, 0))),
-                          (b, tree_to_json(populated_tree(D.describe(D.resolve(b)), 2, 1)))]
+            n_items = 1 if a in tagged and b in tagged else 2
+            trees_json = [(a, tree_to_json(populated_tree(D.describe(D.resolve(a)), n_items, 0))),
+                          (b, tree_to_json(populated_tree(D.describe(D.resolve(b)), n_items, 1)))]
             items = _schedule_items(trees_json)
             for op in ("enc", "dec"):
                 programs = [[(op, 0)], [(op, 1)]]
                 _f, dry = run_schedule(items, programs, [], cold=False)
-                tasks.append((f"kind-pair-{op}:{a.split(':')[1]}|{b.split(':')[1]}", False, programs, trees_json, 0, dry.steps))
+                name = f"kind-pair-{op}:{a.split(':')[1]}|{b.split(':')[1]}"
+                for lo in range(0, dry.steps, 48):  # small chunks, so that the pool stays balanced
+                    tasks.append((name, False, programs, trees_json, lo, min(dry.steps, lo + 48)))
     clear_caches()
     # balance: the tasks are small; group them round-robin into `shards` lists
     return tasks
@@ -1204,8 +1262,17 @@ def _repeat_worker(task):
 
 
 def run(ctx: Ctx) -> Report:
+    import time as _time
+
     total = Report(prop=ID, level="exploration", rule=RULE)
     shards = 16
+    _t = [_time.time()]
+    stage_s: dict = {}
+
+    def lap(name: str) -> None:
+        now = _time.time()
+        stage_s[name] = round(now - _t[0], 1)
+        _t[0] = now
     classes = D.quick_class_sample(ctx.seed, 60 if ctx.quick else 400)
     paths = [f"{c.__module__}:{c.__qualname__}" for c in classes]
     # (1) histories
@@ -1218,36 +1285,46 @@ def run(ctx: Ctx) -> Report:
     total.extra["same_name_groups"] = len(groups)
     for rep in pool_map(_history_worker, tasks):
         total.merge(rep)
+    lap("histories")
     # (2) fault positions, exhaustive per pair
     pairs = 32 if ctx.quick else 400
     fpaths = paths[: pairs]
     tasks = [(ctx.subseed("fault", i), fpaths[i::shards], 1) for i in range(shards)]
     for rep in pool_map(_fault_worker, tasks):
         total.merge(rep)
+    lap("fault_positions")
     # (3) schedules
     n_sched = 1600 if ctx.quick else 40000
     items = _fixed_schedule_items(ctx.subseed("sched-items"))
     tasks = [(ctx.subseed("sched", i), n_sched // shards, items, None) for i in range(shards)]
     for rep in pool_map(_schedule_worker, tasks):
         total.merge(rep)
+    lap("drawn_schedules")
     for rep in pool_map(_sweep_worker, sweep_tasks(ctx, items, shards)):
         total.merge(rep)
+    lap("single_preemption_sweeps")
     for rep in pool_map(_pair_sweep_worker, pair_sweep_tasks(ctx, shards)):
         total.merge(rep)
+    lap("pair_preemption_sweeps")
     kp = kind_pair_tasks(ctx, shards)
     total.extra["kind_cover_classes"] = kind_cover_classes()
     for rep in pool_map(_sweep_worker, kp):
         total.merge(rep)
+    lap("x_vs_y_sweeps")
     # (4) creation/use orders, each in a fresh process
     order_stage(ctx, total)
+    lap("orders")
     # (5) many uses of one cached closure
-    n_rep = 20000 if ctx.quick else 300000
+    n_rep = 10000 if ctx.quick else 300000
     rpaths = paths[:32]
     for rep in pool_map(_repeat_worker, [(rpaths[i::shards], n_rep) for i in range(shards)]):
         total.merge(rep)
+    lap("repetition")
     n_flood = 70000 if ctx.quick else 600000
     for rep in pool_map(_flood_worker, [(p, n_flood) for p in FLOOD_CLASSES]):
         total.merge(rep)
+    lap("flood")
+    total.extra["stage_seconds"] = stage_s
     c = total.extra.get("counters", {})
     if c.get("preemptions_landed", 0) < c.get("schedules", 0) // 2:
         raise HarnessError(f"generator health: only {c.get('preemptions_landed')} preemptions landed in {c.get('schedules')} schedules")
